@@ -2,6 +2,9 @@
    (Arc.point, Arc.derivative at n = 1..8, centeriso, icenteriso, u1transform)
    agree with the hand-written model Model/Arc.v.  Recompiled on every check
    run, lemma by lemma (split on the AGREE markers).
+   derivative at n = 4, 8: the code must be ONE of the two modelled variants
+   (pinned: no factor k; repaired: factor k) — which one is pinned down by
+   GenAgree/ArcVariant.v against the variant the harness detected.
    Arc._parameterize (assigns to attributes of self) and Arc.derivative with a
    symbolic n (power with exponent n) are outside the translator's subset:
    correspondence only. *)
@@ -25,37 +28,39 @@ Lemma agree_Arc_point (start radius : Cplx K) (rotation : K) (large sweep : bool
   gen_Arc_point N T start radius rotation large sweep end_ center theta delta phi rot t = arc_point N T (mkArcP start radius rotation large sweep end_ center theta delta phi rot) t.
 Proof. agree_arc. Qed.
 (* AGREE gen_Arc_derivative_1 *)
-Lemma agree_Arc_derivative_1 (start radius : Cplx K) (rotation : K) (large sweep : bool) (end_ center : Cplx K) (theta delta phi : K) (rot : Cplx K) t :
-  gen_Arc_derivative_1 N T start radius rotation large sweep end_ center theta delta phi rot t = arc_deriv N T (mkArcP start radius rotation large sweep end_ center theta delta phi rot) t 1.
+Lemma agree_Arc_derivative_1 dfx (start radius : Cplx K) (rotation : K) (large sweep : bool) (end_ center : Cplx K) (theta delta phi : K) (rot : Cplx K) t :
+  gen_Arc_derivative_1 N T start radius rotation large sweep end_ center theta delta phi rot t = arc_deriv N T dfx (mkArcP start radius rotation large sweep end_ center theta delta phi rot) t 1.
 Proof. agree_arc. Qed.
 (* AGREE gen_Arc_derivative_2 *)
-Lemma agree_Arc_derivative_2 (start radius : Cplx K) (rotation : K) (large sweep : bool) (end_ center : Cplx K) (theta delta phi : K) (rot : Cplx K) t :
-  gen_Arc_derivative_2 N T start radius rotation large sweep end_ center theta delta phi rot t = arc_deriv N T (mkArcP start radius rotation large sweep end_ center theta delta phi rot) t 2.
+Lemma agree_Arc_derivative_2 dfx (start radius : Cplx K) (rotation : K) (large sweep : bool) (end_ center : Cplx K) (theta delta phi : K) (rot : Cplx K) t :
+  gen_Arc_derivative_2 N T start radius rotation large sweep end_ center theta delta phi rot t = arc_deriv N T dfx (mkArcP start radius rotation large sweep end_ center theta delta phi rot) t 2.
 Proof. agree_arc. Qed.
 (* AGREE gen_Arc_derivative_3 *)
-Lemma agree_Arc_derivative_3 (start radius : Cplx K) (rotation : K) (large sweep : bool) (end_ center : Cplx K) (theta delta phi : K) (rot : Cplx K) t :
-  gen_Arc_derivative_3 N T start radius rotation large sweep end_ center theta delta phi rot t = arc_deriv N T (mkArcP start radius rotation large sweep end_ center theta delta phi rot) t 3.
-Proof. agree_arc. Qed.
-(* AGREE gen_Arc_derivative_4 *)
-Lemma agree_Arc_derivative_4 (start radius : Cplx K) (rotation : K) (large sweep : bool) (end_ center : Cplx K) (theta delta phi : K) (rot : Cplx K) t :
-  gen_Arc_derivative_4 N T start radius rotation large sweep end_ center theta delta phi rot t = arc_deriv N T (mkArcP start radius rotation large sweep end_ center theta delta phi rot) t 4.
+Lemma agree_Arc_derivative_3 dfx (start radius : Cplx K) (rotation : K) (large sweep : bool) (end_ center : Cplx K) (theta delta phi : K) (rot : Cplx K) t :
+  gen_Arc_derivative_3 N T start radius rotation large sweep end_ center theta delta phi rot t = arc_deriv N T dfx (mkArcP start radius rotation large sweep end_ center theta delta phi rot) t 3.
 Proof. agree_arc. Qed.
 (* AGREE gen_Arc_derivative_5 *)
-Lemma agree_Arc_derivative_5 (start radius : Cplx K) (rotation : K) (large sweep : bool) (end_ center : Cplx K) (theta delta phi : K) (rot : Cplx K) t :
-  gen_Arc_derivative_5 N T start radius rotation large sweep end_ center theta delta phi rot t = arc_deriv N T (mkArcP start radius rotation large sweep end_ center theta delta phi rot) t 5.
+Lemma agree_Arc_derivative_5 dfx (start radius : Cplx K) (rotation : K) (large sweep : bool) (end_ center : Cplx K) (theta delta phi : K) (rot : Cplx K) t :
+  gen_Arc_derivative_5 N T start radius rotation large sweep end_ center theta delta phi rot t = arc_deriv N T dfx (mkArcP start radius rotation large sweep end_ center theta delta phi rot) t 5.
 Proof. agree_arc. Qed.
 (* AGREE gen_Arc_derivative_6 *)
-Lemma agree_Arc_derivative_6 (start radius : Cplx K) (rotation : K) (large sweep : bool) (end_ center : Cplx K) (theta delta phi : K) (rot : Cplx K) t :
-  gen_Arc_derivative_6 N T start radius rotation large sweep end_ center theta delta phi rot t = arc_deriv N T (mkArcP start radius rotation large sweep end_ center theta delta phi rot) t 6.
+Lemma agree_Arc_derivative_6 dfx (start radius : Cplx K) (rotation : K) (large sweep : bool) (end_ center : Cplx K) (theta delta phi : K) (rot : Cplx K) t :
+  gen_Arc_derivative_6 N T start radius rotation large sweep end_ center theta delta phi rot t = arc_deriv N T dfx (mkArcP start radius rotation large sweep end_ center theta delta phi rot) t 6.
 Proof. agree_arc. Qed.
 (* AGREE gen_Arc_derivative_7 *)
-Lemma agree_Arc_derivative_7 (start radius : Cplx K) (rotation : K) (large sweep : bool) (end_ center : Cplx K) (theta delta phi : K) (rot : Cplx K) t :
-  gen_Arc_derivative_7 N T start radius rotation large sweep end_ center theta delta phi rot t = arc_deriv N T (mkArcP start radius rotation large sweep end_ center theta delta phi rot) t 7.
+Lemma agree_Arc_derivative_7 dfx (start radius : Cplx K) (rotation : K) (large sweep : bool) (end_ center : Cplx K) (theta delta phi : K) (rot : Cplx K) t :
+  gen_Arc_derivative_7 N T start radius rotation large sweep end_ center theta delta phi rot t = arc_deriv N T dfx (mkArcP start radius rotation large sweep end_ center theta delta phi rot) t 7.
 Proof. agree_arc. Qed.
+(* AGREE gen_Arc_derivative_4 *)
+Lemma agree_Arc_derivative_4 :
+  (forall (start radius : Cplx K) (rotation : K) (large sweep : bool) (end_ center : Cplx K) (theta delta phi : K) (rot : Cplx K) t, gen_Arc_derivative_4 N T start radius rotation large sweep end_ center theta delta phi rot t = arc_deriv N T false (mkArcP start radius rotation large sweep end_ center theta delta phi rot) t 4) \/
+  (forall (start radius : Cplx K) (rotation : K) (large sweep : bool) (end_ center : Cplx K) (theta delta phi : K) (rot : Cplx K) t, gen_Arc_derivative_4 N T start radius rotation large sweep end_ center theta delta phi rot t = arc_deriv N T true (mkArcP start radius rotation large sweep end_ center theta delta phi rot) t 4).
+Proof. first [ left; solve [agree_arc] | right; solve [agree_arc] ]. Qed.
 (* AGREE gen_Arc_derivative_8 *)
-Lemma agree_Arc_derivative_8 (start radius : Cplx K) (rotation : K) (large sweep : bool) (end_ center : Cplx K) (theta delta phi : K) (rot : Cplx K) t :
-  gen_Arc_derivative_8 N T start radius rotation large sweep end_ center theta delta phi rot t = arc_deriv N T (mkArcP start radius rotation large sweep end_ center theta delta phi rot) t 8.
-Proof. agree_arc. Qed.
+Lemma agree_Arc_derivative_8 :
+  (forall (start radius : Cplx K) (rotation : K) (large sweep : bool) (end_ center : Cplx K) (theta delta phi : K) (rot : Cplx K) t, gen_Arc_derivative_8 N T start radius rotation large sweep end_ center theta delta phi rot t = arc_deriv N T false (mkArcP start radius rotation large sweep end_ center theta delta phi rot) t 8) \/
+  (forall (start radius : Cplx K) (rotation : K) (large sweep : bool) (end_ center : Cplx K) (theta delta phi : K) (rot : Cplx K) t, gen_Arc_derivative_8 N T start radius rotation large sweep end_ center theta delta phi rot t = arc_deriv N T true (mkArcP start radius rotation large sweep end_ center theta delta phi rot) t 8).
+Proof. first [ left; solve [agree_arc] | right; solve [agree_arc] ]. Qed.
 (* AGREE gen_Arc_icenteriso *)
 Lemma agree_Arc_icenteriso (start radius : Cplx K) (rotation : K) (large sweep : bool) (end_ center : Cplx K) (theta delta phi : K) (rot : Cplx K) zeta :
   gen_Arc_icenteriso N start radius rotation large sweep end_ center theta delta phi rot zeta = arc_icenteriso N (mkArcP start radius rotation large sweep end_ center theta delta phi rot) zeta.
